@@ -185,6 +185,8 @@ class Gen:
                 val = build(op, self.types)
             if not isinstance(val, Funsor):
                 return None
+            if not self.consistent(op):
+                return None  # one input name with two different domains: ill-typed
             # keep terms small enough to ground exhaustively
             n = 1
             for d in val.inputs.values():
@@ -199,6 +201,37 @@ class Gen:
         self.types[op["out"]] = val
         self.program.append(op)
         return op["out"]
+
+    def consistent(self, op):
+        """Well-typedness funsor itself does not check: an input name must carry
+        one domain throughout the operands an operation combines."""
+        t = op["op"]
+        maps = []
+        if t in ("binary",):
+            maps = [dict(self.types[op["a"]].inputs), dict(self.types[op["b"]].inputs)]
+        elif t == "stack":
+            maps = [dict(self.types[p].inputs) for p in op["parts"]]
+        elif t == "cat":
+            maps = [{k: v for k, v in self.types[p].inputs.items() if k != op["name"]} for p in op["parts"]]
+        elif t == "subs":
+            keys = {k for k, _ in op["subs"]}
+            a = self.types[op["a"]]
+            maps = [{k: v for k, v in a.inputs.items() if k not in keys}]
+            for k, val in op["subs"]:
+                if val[0] == "val":
+                    maps.append(dict(self.types[val[1]].inputs))
+                elif val[0] == "name":
+                    maps.append({val[1]: a.inputs[k]})
+                elif val[0] == "slice":
+                    maps.append({val[1]: Bint[len(range(val[2], val[3], val[4]))]})
+        elif t == "getitem" and op["index"][0] == "val":
+            maps = [dict(self.types[op["a"]].inputs), dict(self.types[op["index"][1]].inputs)]
+        seen = {}
+        for m in maps:
+            for k, d in m.items():
+                if seen.setdefault(k, d) != d:
+                    return False
+        return True
 
     def data(self, kind, n):
         r = self.r
